@@ -37,6 +37,8 @@ CONSTANTS
   Scales,       \* set of plate scales to explore, e.g. {1} or {1, 2}
   Plus, Times,  \* the semiring (op names)
   LeafKind,     \* "lin" | "log" | "nonneg" | "bool"
+  CopyCap,      \* upper bound on the number of copies of eliminated variables in the oracle
+  ElimAll,      \* TRUE: only problems that eliminate everything they mention
   Param,        \* TRUE: the first factor depends on a free real parameter x (never eliminated)
   Tag
 
@@ -46,6 +48,7 @@ RP == IF LeafKind = "log" \/ LeafKind = "nonneg" THEN <<Q(1, 2), One, Q(2, 1), Q
       ELSE <<Q(-1, 1), Zero, Q(1, 2), Q(2, 1)>>
 VN == <<"a", "b">>
 PN == <<"p", "q">>
+PN3 == <<"p", "q", "r">>
 
 Range(s) == {s[k] : k \in 1..Len(s)}
 AllNames == VarNames \o PlateNames
@@ -192,6 +195,12 @@ Problems ==
                     THEN SeqProd([q \in 1..Len(PlateNames) |->
                                     IF PlateNames[q] \in Ord(p, VarNames[j]) THEN PlateSize * p.sc[PlateNames[q]] ELSE 1])
                     ELSE 0]) <= 6
+     /\ SeqSum([j \in 1..Len(VarNames) |->
+                    IF VarNames[j] \in p.elim /\ VarNames[j] \in Mentioned(p)
+                    THEN SeqProd([q \in 1..Len(PlateNames) |->
+                                    IF PlateNames[q] \in Ord(p, VarNames[j]) THEN PlateSize * p.sc[PlateNames[q]] ELSE 1])
+                    ELSE 0]) <= CopyCap
+     /\ ElimAll => (p.elim = Mentioned(p) /\ \A k \in 1..Len(p.fs) : p.fs[k].vs # {})
      /\ \A k \in 1..(Len(p.fs) - 1) : Code(p.fs[k]) <= Code(p.fs[k + 1])
      /\ p.elim \subseteq Mentioned(p)
      /\ p.elim # {}}
